@@ -34,7 +34,7 @@ ASSUMPTIONS = [
 BOUNDS = {
     "quick": {"gates": "n<=4, every position", "measure/reset": "n<=2 all positions, determinism in {0,1,probabilistic}",
               "insert/remove/tensor": "n<=2 (n1+n2<=3)"},
-    "thorough": {"gates": "n<=8 every position, n=12 and 16 selected positions", "measure/reset": "n<=3 complete; n=4: five (operation, position, determinism) combinations with a 30 min budget each -- MeasureZ(n=4) completes (255 paths) with z3 arith.solver=2, a few dozen XOR-heavy obligations may stay undecided and are reported", "insert/remove/tensor": "n<=3"},
+    "thorough": {"gates": "n<=8 every position, n=12 and 16 selected positions", "measure/reset": "n<=3 complete; n=4: four (operation, position, determinism) combinations with a 25 min budget each -- MeasureZ(n=4) completes (255 paths) with z3 arith.solver=2, a few dozen XOR-heavy obligations may stay undecided and are reported", "insert/remove/tensor": "n<=3"},
 }
 OUTSIDE = ("n above the bounds (hundreds of qubits, n=200 random walks); Stabilizer.apply_x_measurement (calls a "
            "function that does not exist); performance")
@@ -569,13 +569,13 @@ def plan(tier):
     if not q:
         # n = 4 measurement family: most paths are decided in seconds, some symplectic (XOR-heavy) obligations defeat
         # CDCL; budgeted exploration with a short solver time-out, undecided paths count as unexplored
-        for h in (MeasureZ(n=4, q=0, det=1), MeasureZ(n=4, q=3, det="probabilistic"), MeasureZ(n=4, q=1, det=0),
+        for h in (MeasureZ(n=4, q=0, det=1), MeasureZ(n=4, q=3, det="probabilistic"),
                   Remove(n=4, q=1, det=0, via="remove_qubit"), Reset(n=4, q=2, basis="Z", intended=1, det=1)):
             h.parallel = True
             h.partial_ok = True
             h.path_timeout_s = 600
             h.arith_solver = 2  # see symnp.engine.Session: decides the XOR-heavy symplectic obligations much faster
-            jobs.append((h, {"time_budget": 1800, "chunk_paths": 2, "chunk_s": 30.0, "solver_timeout_ms": 120000}))
+            jobs.append((h, {"time_budget": 1500, "chunk_paths": 2, "chunk_s": 30.0, "solver_timeout_ms": 120000}))
     for n in ([2] if q else [2, 3]):
         for a, b in itertools.combinations(range(n), 2):
             jobs.append((Swap(n=n, pos=[a, b]), {}))
